@@ -131,3 +131,46 @@ claim("C12",
       "AccountTotals.AddAccount/DelAccount/ApplyRewards/All/Participating/RewardUnits and AccountData.Money/WithUpdatedRewards at full 64-bit width, layered: RewardUnits == exact quotient; Money/WithUpdatedRewards == algos + q*(level-base); then one inductive step over 2 (thorough 3) arbitrary accounts: "
       "if totals equal the exact per-status sums then after DelAccount(old)+AddAccount(new) and after ApplyRewards(L -> L') they do again whenever the overflow tracker is clean; overflow is flagged only when a true sum exceeds 2^64.",
       "Two instances of the distributive law are assumed (not decidable by the solvers in this encoding) and checked on an exhaustive {0,1,2}^k grid (VerifC12HintsGrid). Assumes unit >= 1, RewardsBase <= level, money < 2^64. That the trackers apply exactly these steps per modified account is outside.")
+
+claim("C01",
+      "One step of the real player.handle from an ARBITRARY player state (symbolic Round, Period, Step, LastConcluding, Napping, FastRecoveryDeadline, Deadline) against an oracle router that answers every request the player sends "
+      "(proposal store / vote aggregator queries) with an arbitrary event of the right type and logs each consultation; one harness per event kind (soft/cert/next threshold, timeout, fast timeout, round interruption, verified vote / bundle / payload / proposal-vote, present messages). "
+      "Decided on every path: a cert vote is non-bottom, at step <= cert, and backed by a committable answer for that value at the vote's (round, period); soft votes follow the next-value / frozen-value rules and are never bottom; next votes are non-bottom only if staged-committable or the previous period's next value; "
+      "Round advances exactly once per ensureAction, Period moves exactly as the handled threshold prescribes, timeouts never change Round/Period, Step never decreases; every attest carries the post-step (Round, Period); at most one vote per timeout. "
+      "Companion harnesses run the real proposalTracker, voteAggregator and vote trackers for the routing / staging contracts the oracle assumes.",
+      "One step (any second step starts from a state the arbitrary pre-state already covers). Assumes Step in [soft, 60], Round/Period < 2^62, threshold events for the player's round with matching step and non-bottom soft/cert proposal (C06/C04), no timeout while napping before step next, "
+      "oracle stability contracts (committable => non-bottom; staged(e.Round,e.Period) = e.Proposal after a delivered soft/cert threshold). step.nextVoteRanges and proposal value() are stubs; config.Consensus is a concrete version with symbolic DynamicFilterTimeout. "
+      "Cross-node safety (two honest players never certify different values) is the paper argument on top of these per-step lemmas and C06; it is not decided here.")
+
+claim("C02",
+      "(a) action.persistent / persistent([]action) over all 8 action types with symbolic T: true iff a pseudonodeAction of type attest is present. (b) 16 harnesses of TWO consecutive real player steps (timeout, fast timeout, soft threshold, payload, in every order) against the C01 oracle with timers replaced by arbitrary values between the steps: "
+      "no two attests with equal (round, period, step) carry different values, a period is soft-voted once, a next step is voted once, every attest is a persistent pseudonodeAction and persistent(out) is true iff a vote is present. "
+      "(c) the real pseudonodeVotesTask.execute with pre-filled channels (persistence closed / error then closed / nil / quit-only, optional racing quit), up to 2 votes: no vote is released on a persistence error or a quit before persistence, the persistence result is consumed before release, released votes are exactly the verified ones, keys.Record fires once per release.",
+      "makeVotes, verifyVote and time.After are stubs; goroutines are sequentialised and channel contents pre-filled (single-threaded channel model), so real interleavings of the persistence goroutine and crash points between the disk write and the send are outside: the write-ahead ordering is decided at the level of 'release waits for the persistence channel'. "
+      "The disk format / crash recovery (persistence.go encode-decode, restore) is outside this check.")
+
+claim("C03",
+      "For every ensureAction emitted by one real player step (cert threshold; verified vote or bundle completing the cert quorum; round interruption; late payload with a stored bundle; two commits in one step through the pipelined freshest bundle): the Certificate is field for field the bundle of the cert event handled or consulted, that event is a certThreshold, "
+      "Certificate.Round = pre-round + k, Step = cert, Proposal non-bottom, the payload is the one reported committable for exactly (e.Round, e.Period) (or the verified payload on the late path), payload.value() == Certificate.Proposal, and the player ends in round + number of ensures; soft/next thresholds, timeouts and proposal-votes never ensure.",
+      "Same oracle, stubs and preconditions as C01; 'event round = player round' is assumed here and decided on the real voteAggregator in the C01 companion harness. The ledger's EnsureBlock and the asynchronous ledger writer are outside.")
+
+claim("C16",
+      "The real catchpointCatchupAccessor VerifyCatchpoint decision (label comparison) with a fake catchpoint store and GetVerifyData stubbed: nil iff all state reads succeed, the catchpoint file version is supported (<=V6 as V6, V7, V8), the stored block round equals blk.Round() and the stored label equals the label of "
+      "(round, block digest, balances root, totals, + state-proof hash for V7/V8, + online-accounts and online-round-params hashes for V8) - both directions; two (block, staging data) pairs verifying against the same stored label agree on every ingredient the version commits to; each real label maker's buffer() is exactly the concatenation the oracle assumes.",
+      "MakeLabel / Block.Digest / EncodeReflect(totals) are injective uninterpreted functions. Chunk processing, trie rebuild from the staging tables, the file reader/writer and GetVerifyData's SQL are outside (sqlite is not encodable): the claim is 'VerifyCatchpoint accepts only matching labels', not 'the restored ledger equals the producer's'.")
+
+claim("C28",
+      "crypto.MultisigBatchPrep / MultisigVerify on arbitrary multisigs (0-3 subsig slots, thorough 4, symbolic version, threshold, key and signature bytes): nil => version 1, 1 <= threshold <= slots <= 255, address == H(MultisigAddr, version, threshold, keys), signed slots >= threshold and exactly the signed slots are enqueued, each with its own key, message and signature; 256 slots rejected. "
+      "verify.checkTxnSigTypeCounts / txnBatchPrep / stxnCoreChecks: exactly one of Sig, Msig, Lsig, PQsig is accepted (none only for the state-proof sender), the single check performed is against AuthAddr-or-sender over the transaction with the carried material; rekey rules both ways; the real logicSigVerify / LogicSigSanityCheck delegation rules (Sig, Msig, LMsig, PQ delegation, program-hash address); "
+      "PQSig.Verify derives the address from (scheme, salt, key); eval.transaction (validate on) applies the transaction iff AuthAddr-or-sender equals the ledger's AuthAddr-or-sender for the sender.",
+      "crypto.Hash / PQAddress injective uninterpreted functions; batch verifiers are recording fakes (signature-scheme validity is an uninterpreted predicate); logic.CheckSignature / EvalSignatureFull / applyTransaction stubbed. Signature scheme soundness, program evaluation and logicSigGroupSizeCheck are outside. eval.transaction skips the check when validate=false (as coded).")
+
+claim("C29",
+      "BlockEvaluator.TransactionGroup / TestTransactionGroup and transactions.CheckTxnGroup on groups of 1-3 (thorough 4) with all 32 Group bytes symbolic: accepted => n <= MaxTxGroupSize, all members carry the same non-zero (when n > 1) Group equal to H(TG || ordered group-less IDs), every member evaluated exactly once in order, payset grows by n; rejection adds nothing. "
+      "Block.ContentsMatchHeader with PaysetCommit type, both commitment flags, protocol and tree errors symbolic: true iff all three commitment fields equal the recomputed ones (disabled commitment must be zero); two paysets matching one header are identical. BlockHeader.PreCheck nil => known protocol, Round = prev+1, Branch = H(prev), Branch512 = H512(prev) when enabled and zero otherwise, genesis ID / hash rules; a correctly linked header is accepted.",
+      "Transaction.ID, crypto.Hash, hashTxGroup, BlockHeader.Hash/Hash512, Payset.CommitFlat and the three TxnMerkleTree roots are injective uninterpreted functions (the Merkle construction itself is C37); eval.transaction is a recording stub. Paysets of 0-2 (thorough 3) transactions differing in one note byte. msgpack encodings and collision resistance are outside.")
+
+claim("C30",
+      "The real catchup Service.fetchAndWrite with up to 2 fetch attempts (thorough 3), each an adversarial choice among fetch error, no-block error, nil block or a block+certificate with symbolic ContentsMatchHeader and Authenticate verdicts, symbolic CatchupBlockValidateMode (0-15) and symbolic ledger answers: at most one write and never through EnsureBlock; the written pair is the last fetched block and certificate; "
+      "unless the mode bit disables it the written block matched its header and the pair authenticated, with those checks preceding the write on that same block; the write happens only after the previous round's completion signal was consumed; Validate precedes AddValidatedBlock in validate modes; a response failing an enabled check is never written; err == nil iff the ledger accepted the write.",
+      "innerFetch, Block.ContentsMatchHeader and errors.As are stubs; ledger, authenticator, peer selector and context are fakes; lookbackComplete modelled closed, no select ever has two ready cases. pipelinedFetch's cross-goroutine channel wiring, timeouts/backoff, the real fetcher (incl. its round == r check) and the 500-retry limit are outside.")
